@@ -381,7 +381,7 @@ def run_one(payload):
     tier = payload.get('tier', 'quick')
     templates = _state['templates']
     h = gen_history(cs, templates, tier, payload.get('force'))
-    refdir = os.environ.get('DSIM_REFDIR') or tempfile.mkdtemp(prefix='dsim-ref-', dir='/dev/shm')
+    refdir = os.environ.get('DSIM_REFDIR') or tempfile.mkdtemp(prefix='dsim-ref-', dir=K.scratch_root())
     os.makedirs(refdir, exist_ok=True)
     sandbox = K.make_sandbox('h', seed)
     rec = {'seed': seed, 'engine': 'histsim', 'history': h, 'config': h}
